@@ -364,6 +364,22 @@ fn toroidal_case<K: Kern<D>, const D: usize>(cx: &mut Ctx, r: &mut Rng, idx: usi
         let off = if idx % 2 == 0 { -pow2(-60) * pow2(s) } else { -pow2(-70) };
         input.push(VIn { uuid: mk_uuid(cx.fresh_uuid()), m, off, cls: "probe", data: Some(99) });
     }
+    // periodic image-point mode (2-D): the quotient torus itself
+    if D == 2 && idx % 4 == 1 {
+        let lmp: Vec<i64> = vec![8, 8];
+        let npts = 9 + r.below(4);
+        let base = random_points(r, 2, npts, 7);
+        let pin: Vec<VIn> = base
+            .iter()
+            .enumerate()
+            .map(|(i, p)| {
+                // congruent copies: shift by whole periods
+                let m: Vec<i64> = p.iter().map(|x| x + 8 * r.range(-2, 2)).collect();
+                VIn::lattice(cx.fresh_uuid(), m, Some(i as i32))
+            })
+            .collect();
+        op_construct_toroidal::<K, D>(&mut cx.tr, 1, g, &lmp, true, &pin);
+    }
     let Some(mut dt) = op_construct_toroidal::<K, D>(&mut cx.tr, 0, g, &lm, false, &input) else {
         cx.tr.s = 0;
         return;
